@@ -4,15 +4,19 @@ use crate::runner::ScenarioFn;
 
 pub mod c02;
 pub mod c06;
+pub mod c07;
 pub mod c08;
 pub mod c10;
+pub mod c13;
 
 pub fn scenario_for(property: &str) -> Option<ScenarioFn> {
     match property {
         "C02" => Some(c02::run),
         "C06" => Some(c06::run),
+        "C07" => Some(c07::run),
         "C08" => Some(c08::run),
         "C10" => Some(c10::run),
+        "C13" => Some(c13::run),
         _ => None,
     }
 }
